@@ -160,8 +160,16 @@ func main() {
 	count := flag.Bool("count", false, "print the number of cases and exit")
 	flag.BoolVar(&verbose, "v", false, "verbose")
 	gg := flag.String("gengolden", "", "write the golden corpus to this directory (pinned release only)")
+	ggx := flag.String("gengoldenextra", "", "write the extra golden directories (pinned release only)")
 	commit := flag.String("commit", "", "commit id recorded in golden manifests")
 	flag.Parse()
+	if *ggx != "" {
+		if err := genGoldenExtra(*ggx, *commit); err != nil {
+			fmt.Fprintln(os.Stderr, "gengoldenextra:", err)
+			os.Exit(1)
+		}
+		return
+	}
 	if *gg != "" {
 		if err := genGolden(*gg, *commit); err != nil {
 			fmt.Fprintln(os.Stderr, "gengolden:", err)
